@@ -117,7 +117,7 @@ def fresh_nothing_producers(model: Model) -> List[str]:
         for combo in itertools.product(shapes, repeat=n_params) if n_params == 1 else [(a, "str") for a in shapes]:
 
             def body(it: Any, combo=combo, ci=ci, call=call) -> Any:
-                f = it.new_inst(ci, "fn")
+                f = it.harness_inst(ci, "fn")
                 args = []
                 for i, c in enumerate(combo):
                     if c == "nothing":
@@ -223,7 +223,7 @@ def check(model: Model, report: Report) -> None:
                     lv, ls = mk(lp, "left")
                     rv, rs = mk(rp, "right")
                     holder["ls"], holder["rs"] = ls, rs
-                    inst = it.new_inst(ce, "cmp")
+                    inst = it.harness_inst(ce, "cmp")
                     inst.attrs["token"] = it.new_opaque("token")
                     inst.attrs["left"] = expr_stub(it, model, lv, "left")
                     inst.attrs["right"] = expr_stub(it, model, rv, "right")
@@ -297,7 +297,7 @@ def check(model: Model, report: Report) -> None:
             continue
 
         def body2(it: Any, ci=ci, m=m) -> Any:
-            inst = it.new_inst(ci, "lit")
+            inst = it.harness_inst(ci, "lit")
             s = it.new_sym("stored")
             inst.attrs["value"] = s
             inst.attrs["token"] = it.new_opaque("token")
